@@ -54,6 +54,10 @@ func (g *c16Gen) source() (string, int) {
 		return ".Families", c16Fam
 	case 7:
 		return "Document1 | .Individuals", c16Indi
+	case 8:
+		if g.r.Chance(1, 3) {
+			return ".Sources", c16NodeI
+		}
 	}
 	return ".Nodes", c16NodeI
 }
@@ -64,26 +68,32 @@ func (g *c16Gen) scalar(t int) string {
 	case c16Indi:
 		return g.r.Pick([]string{".Name | .String", ".Name | .GivenName", ".Name | .Surname", ".Sex | .String", ".Pointer", ".Value", ".Tag | .Tag", ".Names | Length", ".Nodes | Length",
 			".IsLiving", ".String", ".Birth | .String", ".Birth | .Years", ".Death | .IsValid", ".Death | .String", ".Baptism | .String", ".Burial | .Years", ".Spouses | Length",
-			".Families | Length", ".Parents | Length", ".Births | Length", ".Deaths | Length", ".Baptisms | Length", ".Burials | Length", ".Spouses | .Pointer", ".Families | .Pointer", ".Parents | .Pointer"})
+			".Families | Length", ".Parents | Length", ".Births | Length", ".Deaths | Length", ".Baptisms | Length", ".Burials | Length", ".Spouses | .Pointer", ".Families | .Pointer", ".Parents | .Pointer",
+			".EstimatedBirthDate | .String", ".EstimatedDeathDate | .Years", ".Identifier", ".AllEvents | Length", ".LDSBaptisms | Length", ".UniqueIDs | Length", ".Name | .Prefix", ".Name | .Title",
+			".Name | .Suffix", ".Name | .SurnamePrefix", ".Tag | .String", ".Tag | .IsKnown", ".Tag | .SortValue", ".RawSimpleNode | .Value", ".SimpleNode | .Pointer", ".Birth | .StartDate | .Year",
+			".Birth | .EndDate | .String", ".Birth | .IsExact", ".Death | .StartDate | .IsZero", ".Birth | .EndDate | .Years", ".Birth | .StartDate | .IsEndOfRange", ".ObjectMap | .Tag"})
 	case c16Fam:
 		return g.r.Pick([]string{".Pointer", ".Value", ".Tag | .Tag", ".Nodes | Length", ".Husband | .Individual | .Name | .String", ".Wife | .Individual | .IsLiving",
-			".Children | Length", ".Husband | .Individual | .String", ".Wife | .Individual | .Pointer", ".Husband | .Value", ".Children | .Individual | .String", ".Wife | .Individual | .Birth | .Years"})
+			".Children | Length", ".Husband | .Individual | .String", ".Wife | .Individual | .Pointer", ".Husband | .Value", ".Children | .Individual | .String", ".Wife | .Individual | .Birth | .Years",
+			".Identifier", ".Husband | .RawSimpleNode | .Value", ".Tag | .IsOfficial", ".Wife | .Identifier", ".Husband | .Individual | .EstimatedBirthDate | .String"})
 	case c16Date, c16DateI:
-		return g.r.Pick([]string{".Years", ".String", ".IsValid", ".Value", ".String"})
+		return g.r.Pick([]string{".Years", ".String", ".IsValid", ".Value", ".String", ".StartDate | .String", ".EndDate | .Year", ".IsExact", ".IsPhrase", ".StartDate | .IsExact", ".EndDate | .Years",
+			".StartDate | .Day", ".EndDate | .IsZero", ".StartDate | .IsEndOfRange"})
 	case c16Role:
 		return g.r.Pick([]string{".Individual | .String", ".Individual | .IsLiving", ".Individual | .Pointer", ".Value", ".Individual | .Name | .Surname"})
 	case c16PlaceI:
-		return g.r.Pick([]string{".Name", ".Country", ".County", ".State", ".String", ".JurisdictionalName", ".Value", ".Country"})
+		return g.r.Pick([]string{".Name", ".Country", ".County", ".State", ".String", ".JurisdictionalName", ".Value", ".Country", ".Format | .Value", ".Map | .Latitude | .Value", ".Map | .Longitude | .Value",
+			".Notes | Length", ".Map | .Nodes | Length"})
 	case c16EventI:
 		return g.r.Pick([]string{".Dates | Length", ".String", ".Value", ".Tag | .Tag", ".Dates | .String", ".Dates | .Years"})
 	case c16NodeI:
-		return g.r.Pick([]string{".Pointer", ".Value", ".Tag | .Tag", ".Nodes | Length"})
+		return g.r.Pick([]string{".Pointer", ".Value", ".Tag | .Tag", ".Nodes | Length", ".Identifier", ".RawSimpleNode | .Tag | .Tag", ".Tag | .String", ".Tag | .IsEvent"})
 	case c16Name:
-		return g.r.Pick([]string{".String", ".GivenName", ".Surname", ".GivenName", ".Value"})
+		return g.r.Pick([]string{".String", ".GivenName", ".Surname", ".GivenName", ".Value", ".Prefix", ".Title", ".Suffix", ".SurnamePrefix", ".RawSimpleNode | .Value", ".ShallowCopy | .Value"})
 	case c16Sex:
 		return g.r.Pick([]string{".String", ".String", ".Value"})
 	case c16Tag:
-		return ".Tag"
+		return g.r.Pick([]string{".Tag", ".Tag", ".String", ".IsEvent", ".IsKnown", ".IsOfficial", ".SortValue"})
 	}
 	return "Length"
 }
@@ -124,11 +134,11 @@ func (g *c16Gen) step(q string, t int) (string, int) {
 			case 2:
 				return q + " | .Sex", c16Sex
 			case 3:
-				return q + " | " + g.r.Pick([]string{".Names", ".Spouses", ".Families", ".Parents", ".Births", ".Deaths", ".Baptisms", ".Burials"}), c16Nested
+				return q + " | " + g.r.Pick([]string{".Names", ".Spouses", ".Families", ".Parents", ".Births", ".Deaths", ".Baptisms", ".Burials", ".AllEvents", ".LDSBaptisms", ".UniqueIDs"}), c16Nested
 			case 4:
 				return q + " | .Tag", c16Tag
 			case 5, 6, 7:
-				return q + " | " + g.r.Pick([]string{".Birth", ".Death", ".Baptism", ".Burial", ".Birth"}), c16Date
+				return q + " | " + g.r.Pick([]string{".Birth", ".Death", ".Baptism", ".Burial", ".Birth", ".EstimatedBirthDate", ".EstimatedDeathDate"}), c16Date
 			case 8:
 				return q + " | .IsLiving", c16Bool
 			case 9:
@@ -161,11 +171,11 @@ func (g *c16Gen) step(q string, t int) (string, int) {
 			}
 			return q + " | .String", c16Str
 		case c16Name:
-			return q + " | " + g.r.Pick([]string{".GivenName", ".Surname", ".String"}), c16Str
+			return q + " | " + g.r.Pick([]string{".GivenName", ".Surname", ".String", ".Prefix", ".Suffix", ".Title", ".SurnamePrefix", ".Identifier"}), c16Str
 		case c16Sex:
 			return q + " | .String", c16Str
 		case c16Tag:
-			return q + " | .Tag", c16Str
+			return q + " | " + g.r.Pick([]string{".Tag", ".String", ".Tag"}), c16Str
 		}
 		return q + " | Only(1 = 1)", t
 	case k < 10:
@@ -411,6 +421,70 @@ var c16apiRefs = map[string]func(doc *gedcom.Document) string{
 		return strings.ReplaceAll(sb.String(), "[ ]", "[  ]")
 	},
 	".Families | .Children | Length": func(d *gedcom.Document) string { return "i" + strconv.Itoa(len(d.Families())) },
+	// round 4: the widened menu, recomputed through the Go API
+	".Individuals | .EstimatedBirthDate | .String": func(d *gedcom.Document) string {
+		return c16strs(d, func(i *gedcom.IndividualNode) string { b, _ := i.EstimatedBirthDate(); return b.String() })
+	},
+	".Individuals | .EstimatedDeathDate | .Value": func(d *gedcom.Document) string {
+		return c16strs(d, func(i *gedcom.IndividualNode) string { b, _ := i.EstimatedDeathDate(); return b.Value() })
+	},
+	".Individuals | .Identifier": func(d *gedcom.Document) string {
+		return c16strs(d, func(i *gedcom.IndividualNode) string { return i.Identifier() })
+	},
+	".Individuals | .Name | .Prefix": func(d *gedcom.Document) string {
+		return c16strs(d, func(i *gedcom.IndividualNode) string { return i.Name().Prefix() })
+	},
+	".Individuals | .Name | .Suffix": func(d *gedcom.Document) string {
+		return c16strs(d, func(i *gedcom.IndividualNode) string { return i.Name().Suffix() })
+	},
+	".Individuals | .Tag | .String": func(d *gedcom.Document) string {
+		return c16strs(d, func(i *gedcom.IndividualNode) string { return i.Tag().String() })
+	},
+	".Individuals | .Birth | .StartDate | .String": func(d *gedcom.Document) string {
+		return c16strs(d, func(i *gedcom.IndividualNode) string { b, _ := i.Birth(); return b.StartDate().String() })
+	},
+	".Individuals | .Birth | .EndDate | .Year": func(d *gedcom.Document) string {
+		var sb strings.Builder
+		sb.WriteString("[ ")
+		for _, i := range d.Individuals() {
+			b, _ := i.Birth()
+			fmt.Fprintf(&sb, "i%d ", b.EndDate().Year)
+		}
+		sb.WriteString("]")
+		return strings.ReplaceAll(sb.String(), "[ ]", "[  ]")
+	},
+	".Individuals | .Death | .StartDate | .Month": func(d *gedcom.Document) string {
+		var sb strings.Builder
+		sb.WriteString("[ ")
+		for _, i := range d.Individuals() {
+			b, _ := i.Death()
+			fmt.Fprintf(&sb, "i%d ", int(b.StartDate().Month))
+		}
+		sb.WriteString("]")
+		return strings.ReplaceAll(sb.String(), "[ ]", "[  ]")
+	},
+	".Individuals | {e: .AllEvents | Length, u: .UniqueIDs | Length, b: .LDSBaptisms | Length}": func(d *gedcom.Document) string {
+		var sb strings.Builder
+		sb.WriteString("[ ")
+		for _, i := range d.Individuals() {
+			fmt.Fprintf(&sb, "{ k%s i%d k%s i%d k%s i%d } ", hexs("b"), len(i.LDSBaptisms()), hexs("e"), len(i.AllEvents()), hexs("u"), len(i.UniqueIDs()))
+		}
+		sb.WriteString("]")
+		return strings.ReplaceAll(sb.String(), "[ ]", "[  ]")
+	},
+	".Sources | Length": func(d *gedcom.Document) string { return "i" + strconv.Itoa(len(d.Sources())) },
+	".Sources | .Title": func(d *gedcom.Document) string {
+		var sb strings.Builder
+		sb.WriteString("[ ")
+		for _, x := range d.Sources() {
+			sb.WriteString("s" + hexs(x.Title()) + " ")
+		}
+		sb.WriteString("]")
+		return strings.ReplaceAll(sb.String(), "[ ]", "[  ]")
+	},
+	".Individuals | .RawSimpleNode | .Pointer": func(d *gedcom.Document) string {
+		return c16strs(d, func(i *gedcom.IndividualNode) string { return i.RawSimpleNode().Pointer() })
+	},
 	".Individuals | {p: .Pointer, n: .Names | Length}": func(d *gedcom.Document) string {
 		var sb strings.Builder
 		sb.WriteString("[ ")
@@ -1553,7 +1627,11 @@ func init() {
 // the accessors of the model's menu (for the per-accessor count of evaluated queries)
 var c16menuWords = []string{".Individuals", ".Families", ".Nodes", ".Tag", ".Value", ".Pointer", ".Name", ".Names", ".Sex", ".GivenName", ".Surname", ".String",
 	".Births", ".Deaths", ".Baptisms", ".Burials", ".Birth", ".Death", ".Baptism", ".Burial", ".Spouses", ".Parents", ".IsLiving", ".Husband", ".Wife", ".Children",
-	".Individual", ".Dates", ".Years", ".IsValid", ".Country", ".County", ".State", ".JurisdictionalName"}
+	".Individual", ".Dates", ".Years", ".IsValid", ".Country", ".County", ".State", ".JurisdictionalName",
+	// round 4
+	".Sources", ".Title", ".EstimatedBirthDate", ".EstimatedDeathDate", ".AllEvents", ".LDSBaptisms", ".UniqueIDs", ".Identifier", ".RawSimpleNode", ".SimpleNode", ".ShallowCopy", ".ObjectMap",
+	".Prefix", ".Suffix", ".SurnamePrefix", ".StartDate", ".EndDate", ".IsExact", ".IsPhrase", ".IsZero", ".Year", ".Month", ".Day", ".Constraint", ".IsEndOfRange", ".Format", ".Map", ".Latitude",
+	".Longitude", ".Notes", ".IsEvent", ".IsKnown", ".IsOfficial", ".SortValue"}
 
 // c16listValued: the statement yields a list per element (a comparison on it is mapped, so it is
 // not a bool).
